@@ -43,6 +43,17 @@ Definition wit_rec_progs : list (list fop) := [[FDel 1 1; FPia 3 120 1]; [FPia 2
 Definition wit_rec_grants : list nat := [1; 1; 1; 1; 0; 0; 0; 0; 0; 0; 0; 0; 0; 0; 0; 1; 1; 1]%nat.
 Definition wit_rec_atomic_grants : list nat := [1; 1; 1; 1; 0; 0; 0; 0; 0; 0; 0; 0; 1; 1; 1]%nat.
 
+(* 1b. ONE replacing put against a put_if_absent of ANOTHER key: list 2.  T0 put(2,102) finds node(2) and parks before its CAS
+   (its node's next = the successor of node(2) = NULL); T1 put_if_absent(1,113) links key 1 behind node(2); T0 swings the
+   predecessor to its own node: node(2) and the node of key 1 are gone.  get(1) = NULL. *)
+Definition wit_nodes3 : list (N * N * N) := [(0, 0, 0); (wit_d1, 0, 0); (wit_so, 2, 52)].
+Definition wit_put_other_progs : list (list fop) := [[FPut 2 102 1]; [FPia 1 113 1; FGet 1 1]].
+Definition wit_put_other_grants : list nat := [0; 0; 0; 1; 1; 1; 1; 0; 1; 1]%nat.
+Lemma wit_put_other_bad : wit_bad pol_code wit_nodes3 wit_put_other_progs wit_put_other_grants = true.
+Proof. vm_compute. reflexivity. Qed.
+Lemma wit_put_other_results : results (wit_run pol_code wit_nodes3 wit_put_other_progs wit_put_other_grants) = [[102]; [113; 0]].
+Proof. vm_compute. reflexivity. Qed.
+
 Lemma wit_put_bad : wit_bad pol_code wit_nodes0 wit_put_progs wit_put_grants = true.
 Proof. vm_compute. reflexivity. Qed.
 Lemma wit_put_results : results (wit_run pol_code wit_nodes0 wit_put_progs wit_put_grants) = [[102]; [107]; [113; 0]].
